@@ -2,10 +2,11 @@
 (***************************************************************************)
 (* Trace validation for C17.  Every line of the trace file is one recorded *)
 (* history of script-level operations on the real interpreter (declare /   *)
-(* redeclare a struct, construct, decode, write a field through one of the *)
-(* routes the language offers, whole-instance assignment through a         *)
-(* pointer).  After every step the harness recorded ok / err / panic and,  *)
-(* for every instance bound to a variable, its keys and the type of each   *)
+(* redeclare a struct, construct, decode, encode and decode again, write a *)
+(* field through one of the routes the language offers, take a pointer and *)
+(* keep it, whole-instance assignment through a pointer).  After every     *)
+(* step the harness recorded ok / err / panic and, for every instance      *)
+(* bound to a variable, its type name, its keys and the type of each       *)
 (* value (read off the Go values; only the instances whose observation     *)
 (* changed are listed).  Each case is an initial state; TLC                *)
 (* steps through the events with Records!Outcomes: the event is explained  *)
